@@ -8,6 +8,7 @@ import (
 	"strings"
 	"sync"
 	"testing"
+	"time"
 
 	"github.com/centrifugal/centrifuge"
 	"github.com/centrifugal/centrifuge/verifx/kit"
@@ -426,7 +427,9 @@ func TestC34(t *testing.T) {
 			"the connection-less engine values are configured like the constructors configure them (prefix default, messagePrefix, partitionTags from redispartition.FindTags); only configurations the constructors accept are evaluated",
 			"the RedisMapBroker cleanup worker's own cleanup key (built inline in cleanupShard next to a Redis call) is not observable without Redis and is not covered",
 		},
-		Cases:           map[string]int{"quick": enumCases + 1000, "thorough": enumCases + 15000},
+		Cases: map[string]int{"quick": enumCases + 1000, "thorough": enumCases + 15000},
+		// pure CPU-bound cases: the watchdog only has to catch a genuine hang, not CPU starvation on a loaded host
+		CaseTimeout:     20 * time.Minute,
 		RequireCounters: []string{"cluster_ops_colocated", "extract_roundtrip_broker", "extract_roundtrip_map_broker", "names_leading_close_brace", "names_with_braces", "colocated_redis-broker_cluster", "colocated_redis-broker_cluster-sharded-precomputed", "colocated_redis-map-broker_cluster-sharded", "colocated_redis-presence_cluster"},
 		Run:             run,
 		// tiny live heap, millions of short-lived strings: collect less often (harness-side only)
